@@ -64,6 +64,8 @@ def build_harness():
         if os.path.exists(lock_src) and not os.path.exists(dst):
             open(dst, "w").write(open(lock_src).read())
         t = time.time()
+        os.environ.pop("CARGO_TARGET_DIR", None)  # the harness binary must land where PHARNESS points (harness/.cargo/config.toml)
+        os.environ.pop("CARGO_BUILD_TARGET_DIR", None)
         p = sh(["cargo", "build", "--offline", "--quiet"], cwd=HARNESS, check=False, timeout=1800)
         if p.returncode != 0 and os.path.exists(lock_src):
             open(dst, "w").write(open(lock_src).read())
